@@ -99,6 +99,22 @@ pub fn max_line(toks: &[RawToken]) -> u32 {
     toks.iter().map(|t| t.dst_line).max().unwrap_or(0)
 }
 
+/// the map's tokens as a Hermes map and the same behind `DecodedMap` (None when the map cannot be written and read back,
+/// e.g. dangling ids or a huge line number)
+fn as_hermes(sm: &SourceMap) -> Option<(sourcemap::SourceMapHermes, DecodedMap)> {
+    if sm.tokens().map(|t| t.get_dst_line()).max().unwrap_or(0) >= 20_000 {
+        return None;
+    }
+    let mut buf = vec![];
+    sm.to_writer(&mut buf).ok()?;
+    let mut doc: serde_json::Value = serde_json::from_slice(&buf).ok()?;
+    doc["x_facebook_sources"] = serde_json::json!([]);
+    match sourcemap::decode_slice(doc.to_string().as_bytes()).ok()? {
+        DecodedMap::Hermes(h) => Some((h.clone(), DecodedMap::Hermes(h))),
+        _ => None,
+    }
+}
+
 pub fn run(t: &[&str]) -> String {
     match t[0] {
         "map.dec" => {
@@ -155,10 +171,18 @@ pub fn run(t: &[&str]) -> String {
             let toks = parse_toks(t[1]);
             let sm = SourceMap::new(None, toks, vec![], vec![], None);
             let dm = DecodedMap::Regular(sm.clone());
+            // the same tokens as a Hermes map (written, given an empty `x_facebook_sources`, read back): `DecodedMap`'s
+            // lookup is the embedded map's lookup there too, on every line
+            let hm = as_hermes(&sm);
             let mut out = vec![];
             for q in split_list(t[2]) {
                 let (l, c) = q.split_once(':').unwrap_or((q, "0"));
                 let (l, c): (u32, u32) = (l.parse().unwrap_or(0), c.parse().unwrap_or(0));
+                if let Some((h, hd)) = &hm {
+                    if hd.lookup_token(l, c).map(|t| (t.get_raw_token(), t.get_src_col())) != h.lookup_token(l, c).map(|t| (t.get_raw_token(), t.get_src_col())) {
+                        return "err hermes-dispatch-differs".into();
+                    }
+                }
                 // `DecodedMap::lookup_token` is the same lookup
                 if dm.lookup_token(l, c).map(|t| (t.get_raw_token(), t.get_src_col())) != sm.lookup_token(l, c).map(|t| (t.get_raw_token(), t.get_src_col())) {
                     return "err dispatch-differs".into();
